@@ -23,7 +23,7 @@ RULE = ("motifs: every connected atlas graph with <= 5 vertices plus every conne
         ">= 3 vertices and (a cycle or >= 2 distinct u in the answer); distinct = SHA-1 of (edge set, roots, history)")
 ASSUMPTIONS = ["all motifs on one evaluator are distinctly named (as the property stipulates)", "polynomial identity after full expansion; float spot checks at 1e-12",
                "oracle: enumeration of all 2^|E| occupation states with a bitmask component search"]
-HEADLINE = ["queries", "poly_identities", "float_checks", "motifs", "roots", "history_cases", "cross_evaluator_name_reuse", "queries_on_a_kept_motif_object", "requeries_after_in_place_u_update", "calls_aborted_by_injected_recursion_limit", "cache_hits", "cache_misses", "shadow_unsupported", "nonintegral_float_coercions"]
+HEADLINE = ["queries", "poly_identities", "float_checks", "motifs", "roots", "history_cases", "cross_evaluator_name_reuse", "queries_on_a_kept_motif_object", "requeries_after_in_place_u_update", "calls_aborted_by_injected_recursion_limit", "vectorised_phi_calls", "cache_hits", "cache_misses", "shadow_unsupported", "nonintegral_float_coercions"]
 REQUIRED = {"quick": {"poly_identities_or_numeric": 150, "float_checks": 100, "history_cases": 5, "cache_hits": 20, "requeries_after_in_place_u_update": 10, "queries_with_equal_u_on_all_vertices": 100},
             "thorough": {"poly_identities_or_numeric": 800, "float_checks": 500, "history_cases": 50, "cache_hits": 200, "requeries_after_in_place_u_update": 100, "queries_with_equal_u_on_all_vertices": 500}}
 SHARD_TIMEOUT = {"quick": 900, "thorough": 10800}
@@ -163,11 +163,28 @@ def query(res, ae, watch, g, name, root, mode, rng, oracle_cache, ctx, H=None, p
             res.count("queries_with_equal_u_on_all_vertices")
         for v in nodes:
             H.nodes[v]["u"] = us[v]
-        got = watch.around(lambda: sut("automated_equation(float)", ae.automated_equation, H, phi, root))
         key = ("counts", root)
         if key not in oracle_cache:
             oracle_cache[key] = percolation_counts(nodes, list(g.edges()), root)
         counts, m = oracle_cache[key]
+        if rng.random() < 0.15:
+            # a vectorised call: phi as a numpy array (a whole phi grid evaluated at once); each component must be the scalar answer
+            import numpy as np
+            grid = [phi, rng.random(), rng.choice([0.0, 1.0, 0.5, rng.random()])]
+            res.count("vectorised_phi_calls")
+            gotv = watch.around(lambda: sut("automated_equation(phi array)", ae.automated_equation, H, np.array(grid, dtype=float), root))
+            try:
+                vals = [float(x) for x in np.asarray(gotv, dtype=float).ravel()]
+            except Exception:
+                vals = None
+            wants = [percolation_value(counts, m, root, ph, us) for ph in grid]
+            if vals is None or len(vals) != len(grid) or any(
+                    not (abs(a - b) <= 1e-12 * max(4, m) * max(1.0, percolation_abs(counts, m, root, ph, us))) for a, b, ph in zip(vals, wants, grid)):
+                res.violate("automated-equation-differs-from-expectation(float)", root=root, phi=grid, u=us, got=repr(gotv)[:200], want=wants, vectorised=True, ctx=ctx)
+                return False
+            res.count("float_checks", len(grid))
+            return True
+        got = watch.around(lambda: sut("automated_equation(float)", ae.automated_equation, H, phi, root))
         want = percolation_value(counts, m, root, phi, us)
         res.count("float_checks")
         # tolerance from the conditioning of the sum (arguments outside [0,1] make the terms alternate and cancel)
